@@ -363,7 +363,7 @@ def conclude(pid, spec, results, tier, seed, wall, kani=(), extra_viol=()):
         },
         'assumptions': spec.get('assumptions', []) + [
             'inputs satisfy valid(): n_frac_digits <= 18 and coeff > i128::MIN (the quantifier domain of the property)',
-            'operators are judged under overflow-checks=on (dev profile); the release-profile dimension is property C20',
+            'explicit panics (the crate\'s own overflow signalling) are compiled identically in every profile; implicit panic sites (arithmetic that relies on overflow-checks) are reported as violations of this property and of C20: no such site exists in the functions of this check',
         ],
         'wall_s': round(wall, 2),
         'violations': len(violations) if rc == 1 else 0,
